@@ -143,7 +143,7 @@ def main():
             "guard": "verifharness",
             "enable": "harness files under /verif/harness are injected into the packages they test with go/packages "
                       "Overlay (engine) and `go test -overlay ... -tags verifharness` (native replay); nothing is written to /repo",
-            "baseline_off_cmd": "cd /repo && go test -vet=off -count=1 ./...",
+            "baseline_off_cmd": "cd /repo && GOFLAGS=-mod=mod GOPROXY=off GOSUMDB=off go test -json -vet=off -count=1 -timeout 25m ./...",
             "source_commits": [],
             "add_only": True,
         },
